@@ -5,13 +5,34 @@ package storage
 // VERIF_REPLAY_FUNC it injects a failure at the k-th I/O sink (k = 0,1,2,...)
 // and reports every k for which the real function returns a nil error although
 // a sink reported a failure.
+//
+// (ca-R4, vr4*) Before that, for the helper functions of util.go / copy.go / limit.go / bucket.go the real function is run
+// against a RECORDING bucket (every Get/Stat/Walk/Put with its arguments and decoded put options, the bytes written, the
+// external/local paths set, reads opened/closed; selected calls can be made to fail with a marker error) and compared with
+// the documented behaviour:
+//   - Exists: (true, nil) for an object, (false, nil) for a not-exist error, any other Stat error is returned;
+//   - IsEmpty: true exactly when no object is under the prefix, the walk stops at the first object, a walk error is returned;
+//   - AllPaths / AllObjectInfos: exactly the objects under the prefix, sorted by path, whatever the walk order; errors kept;
+//   - WalkReadObjects: walks the GIVEN prefix of the given bucket, hands out each object's bytes, closes every object;
+//   - ReadPath / PutPath / ForReadObject / ForWriteObject / CopyReader: exact path, exact bytes, options forwarded, closed once;
+//   - Copy / CopyPath / CopyReadObject / copy*: Get exactly the source path, Put exactly the destination path (the object's
+//     Path(), never its external path), atomic put option iff CopyWithAtomic, external/local paths set iff
+//     CopyWithExternalAndLocalPaths, bytes equal; the two copy options set exactly their own flag;
+//   - PutWithAtomic / PutWithSuggestedChunkSize / newPutOptions: what a bucket decodes from the option list;
+//   - LimitWriteBucket: all write sequences over sizes {0,1,3,5} up to length 3 on two objects under limits {-5,0,1,4,10}:
+//     a write is accepted exactly when the running total stays within max(limit,0); a refused write returns a
+//     write-limit error and NOTHING of it reaches the underlying bucket; put options are forwarded.
 
 import (
+	"bytes"
 	"context"
 	"errors"
 	"fmt"
 	"io"
+	"io/fs"
 	"os"
+	"path"
+	"sort"
 	"strings"
 	"sync"
 	"testing"
@@ -72,7 +93,7 @@ func (o *vfWriteObj) Write(p []byte) (int, error) {
 	}
 	return len(p), nil
 }
-func (o *vfWriteObj) Close() error                  { return o.f.hit("WriteObjectCloser.Close " + o.path) }
+func (o *vfWriteObj) Close() error                 { return o.f.hit("WriteObjectCloser.Close " + o.path) }
 func (o *vfWriteObj) SetExternalPath(string) error { return o.f.hit("SetExternalPath " + o.path) }
 func (o *vfWriteObj) SetLocalPath(string) error    { return o.f.hit("SetLocalPath " + o.path) }
 
@@ -105,9 +126,13 @@ func (b *vfBucket) Put(ctx context.Context, path string, _ ...PutOption) (WriteO
 	}
 	return &vfWriteObj{path, b.f}, nil
 }
-func (b *vfBucket) Delete(context.Context, string) error    { return nil }
-func (b *vfBucket) DeleteAll(context.Context, string) error { return nil }
-func (b *vfBucket) SetExternalAndLocalPathsSupported() bool { return true }
+func (b *vfBucket) Delete(_ context.Context, p string) error    { return b.f.hit("Delete " + p) }
+func (b *vfBucket) DeleteAll(_ context.Context, p string) error { return b.f.hit("DeleteAll " + p) }
+func (b *vfBucket) SetExternalAndLocalPathsSupported() bool     { return true }
+
+// The same harness serves the C13 / C14 obligations of these helper functions (registered per property).
+func TestVerifReplayC13(t *testing.T) { TestVerifReplayC15(t) }
+func TestVerifReplayC14(t *testing.T) { TestVerifReplayC15(t) }
 
 func TestVerifReplayC15(t *testing.T) {
 	fn := os.Getenv("VERIF_REPLAY_FUNC")
@@ -139,12 +164,49 @@ func TestVerifReplayC15(t *testing.T) {
 		},
 		"AllPaths": func(b *vfBucket) error { _, err := AllPaths(ctx, b, ""); return err },
 	}
-	op, ok := ops[fn]
-	if !ok {
-		fmt.Printf("VERIF-REPLAY no harness for %q\n", fn)
-		return
+	obl := os.Getenv("VERIF_REPLAY_OBLIGATION")
+	// forwarding wrappers: a failure of the wrapped bucket must come back through the view
+	for recv, wrapped := range map[string]func(b *vfBucket) error{
+		"mapWriteBucketCloser.Put": func(b *vfBucket) error {
+			return PutPath(ctx, MapWriteBucket(b, MapOnPrefix("m")), "x.txt", []byte("data"))
+		},
+		"mapWriteBucketCloser.Delete":    func(b *vfBucket) error { return MapWriteBucket(b, MapOnPrefix("m")).Delete(ctx, "x.txt") },
+		"mapWriteBucketCloser.DeleteAll": func(b *vfBucket) error { return MapWriteBucket(b, MapOnPrefix("m")).DeleteAll(ctx, "x") },
+		"mapReadBucketCloser.Get": func(b *vfBucket) error {
+			_, err := ReadPath(ctx, MapReadBucket(b, MapOnPrefix("b")), "c.txt")
+			return err
+		},
+		"filterReadBucketCloser.Get": func(b *vfBucket) error {
+			_, err := ReadPath(ctx, FilterReadBucket(b, MatchPathExt(".txt")), "a.txt")
+			return err
+		},
+		"stripReadBucket.Get": func(b *vfBucket) error {
+			_, err := ReadPath(ctx, StripReadBucketExternalPaths(b), "a.txt")
+			return err
+		},
+		"limitedWriteBucket.Put": func(b *vfBucket) error { return PutPath(ctx, LimitWriteBucket(b, 100), "x.txt", []byte("data")) },
+		"limitedWriteObjectCloser.Write": func(b *vfBucket) error {
+			return PutPath(ctx, LimitWriteBucket(b, 100), "x.txt", []byte("data"))
+		},
+	} {
+		if strings.Contains(obl, "storage."+recv+"#") {
+			ops[fn] = wrapped
+		}
 	}
 	found := false
+	tried, known := vr4Cases(ctx, fn, obl, func(format string, a ...any) {
+		found = true
+		fmt.Printf("VERIF-REPLAY FAILING-INPUT "+format+"\n", a...)
+	})
+	op, ok := ops[fn]
+	if !ok {
+		if !known {
+			fmt.Printf("VERIF-REPLAY no harness for %q\n", fn)
+		} else if !found {
+			fmt.Printf("VERIF-REPLAY no failing input found for %s (%d inputs against a recording bucket)\n", fn, tried)
+		}
+		return
+	}
 	for k := 0; k < 64; k++ {
 		f := &vfFault{failAt: k}
 		b := &vfBucket{f: f, files: map[string]string{"a.txt": "hello", "b/c.txt": "world"}}
@@ -161,3 +223,774 @@ func TestVerifReplayC15(t *testing.T) {
 		fmt.Printf("VERIF-REPLAY no failing input found for %s (every injected failure was reported)\n", fn)
 	}
 }
+
+// ---------------------------------------------------------------------------------------------------------------
+// ca-R4: recording bucket and the documented behaviour of the helper functions
+
+type vr4Obj struct{ data, ext, local string }
+
+type vr4PutRec struct {
+	path             string
+	atomic           bool
+	chunk            int
+	nopts            int
+	data             bytes.Buffer
+	ext, local       string
+	setExt, setLocal bool
+	closed           int
+	b                *vr4Bucket
+}
+
+func (w *vr4PutRec) Write(p []byte) (int, error) {
+	if err := w.b.errs["Write "+w.path]; err != nil {
+		return 0, err
+	}
+	return w.data.Write(p)
+}
+func (w *vr4PutRec) Close() error {
+	w.closed++
+	return w.b.errs["WriteClose "+w.path]
+}
+func (w *vr4PutRec) SetExternalPath(p string) error { w.ext, w.setExt = p, true; return nil }
+func (w *vr4PutRec) SetLocalPath(p string) error    { w.local, w.setLocal = p, true; return nil }
+
+type vr4Bucket struct {
+	mu      sync.Mutex // Copy works concurrently
+	name    string
+	objects map[string]vr4Obj
+	order   []string // the order in which Walk hands the objects out (deliberately not sorted)
+	errs    map[string]error
+	log     []string
+	puts    []*vr4PutRec
+	opened  int
+	closed  int
+	visits  int
+}
+
+type vr4Read struct {
+	vr4Info
+	r *strings.Reader
+	b *vr4Bucket
+}
+
+type vr4Info struct{ path, ext, local string }
+
+func (i vr4Info) Path() string         { return i.path }
+func (i vr4Info) ExternalPath() string { return i.ext }
+func (i vr4Info) LocalPath() string    { return i.local }
+
+func (r *vr4Read) Read(p []byte) (int, error) { return r.r.Read(p) }
+func (r *vr4Read) Close() error {
+	r.b.mu.Lock()
+	defer r.b.mu.Unlock()
+	r.b.closed++
+	return nil
+}
+
+func vr4New(name string, order ...string) *vr4Bucket {
+	b := &vr4Bucket{name: name, objects: map[string]vr4Obj{}, order: order, errs: map[string]error{}}
+	for _, p := range order {
+		b.objects[p] = vr4Obj{"data of " + p, "/ext/" + name + "/" + p, "/local/" + name + "/" + p}
+	}
+	return b
+}
+
+func (b *vr4Bucket) String() string { return fmt.Sprintf("bucket %s%q", b.name, b.order) }
+
+func (b *vr4Bucket) Get(_ context.Context, p string) (ReadObjectCloser, error) {
+	b.mu.Lock()
+	defer b.mu.Unlock()
+	b.log = append(b.log, "Get "+p)
+	if err := b.errs["Get "+p]; err != nil {
+		return nil, err
+	}
+	o, ok := b.objects[p]
+	if !ok {
+		return nil, &fs.PathError{Op: "read", Path: p, Err: fs.ErrNotExist}
+	}
+	b.opened++
+	return &vr4Read{vr4Info{p, o.ext, o.local}, strings.NewReader(o.data), b}, nil
+}
+
+func (b *vr4Bucket) Stat(_ context.Context, p string) (ObjectInfo, error) {
+	b.mu.Lock()
+	defer b.mu.Unlock()
+	b.log = append(b.log, "Stat "+p)
+	if err := b.errs["Stat "+p]; err != nil {
+		return nil, err
+	}
+	o, ok := b.objects[p]
+	if !ok {
+		return nil, &fs.PathError{Op: "stat", Path: p, Err: fs.ErrNotExist}
+	}
+	return vr4Info{p, o.ext, o.local}, nil
+}
+
+func vr4Under(prefix, p string) bool {
+	return prefix == "" || prefix == "." || p == prefix || strings.HasPrefix(p, prefix+"/")
+}
+
+func (b *vr4Bucket) Walk(_ context.Context, prefix string, f func(ObjectInfo) error) error {
+	b.mu.Lock()
+	b.log = append(b.log, "Walk "+prefix)
+	b.mu.Unlock()
+	if err := b.errs["Walk "+prefix]; err != nil {
+		return err
+	}
+	for _, p := range b.order {
+		if o, ok := b.objects[p]; ok && vr4Under(prefix, p) {
+			b.mu.Lock()
+			b.visits++
+			b.mu.Unlock()
+			if err := f(vr4Info{p, o.ext, o.local}); err != nil {
+				return err
+			}
+		}
+	}
+	return b.errs["WalkEnd "+prefix]
+}
+
+func (b *vr4Bucket) Put(_ context.Context, p string, opts ...PutOption) (WriteObjectCloser, error) {
+	b.mu.Lock()
+	defer b.mu.Unlock()
+	b.log = append(b.log, "Put "+p)
+	if err := b.errs["Put "+p]; err != nil {
+		return nil, err
+	}
+	decoded := NewPutOptions(opts)
+	rec := &vr4PutRec{path: p, atomic: decoded.Atomic(), chunk: decoded.SuggestedChunkSize(), nopts: len(opts), b: b}
+	b.puts = append(b.puts, rec)
+	return rec, nil
+}
+func (b *vr4Bucket) Delete(context.Context, string) error    { return nil }
+func (b *vr4Bucket) DeleteAll(context.Context, string) error { return nil }
+func (b *vr4Bucket) SetExternalAndLocalPathsSupported() bool { return true }
+
+func (b *vr4Bucket) under(prefix string) []string {
+	var out []string
+	for p := range b.objects {
+		if vr4Under(prefix, p) {
+			out = append(out, p)
+		}
+	}
+	sort.Strings(out)
+	return out
+}
+
+var vr4Marker = errors.New("marker failure of the underlying bucket")
+
+func vr4Cases(ctx context.Context, fn, obl string, report func(string, ...any)) (int, bool) {
+	tried := 0
+	orders := [][]string{nil, {"a.txt"}, {"b/c.txt", "a.txt", "b/a.txt", "a/z.txt", "a-b/c.txt"}, {"z", "y", "x"}}
+	prefixes := []string{"", "a", "b", "zz", "a.txt"}
+	checkPut := func(input string, to *vr4Bucket, wantPath, wantData string, wantAtomic, wantPaths bool, src vr4Obj) {
+		if len(to.puts) != 1 || to.puts[0].path != wantPath {
+			var got []string
+			for _, p := range to.puts {
+				got = append(got, p.path)
+			}
+			report("%s: the destination received Put for %q; documented: exactly one Put, for %q", input, got, wantPath)
+			return
+		}
+		p := to.puts[0]
+		switch {
+		case p.data.String() != wantData:
+			report("%s: %q was written to %s; documented: the source bytes %q", input, p.data.String(), wantPath, wantData)
+		case p.atomic != wantAtomic:
+			report("%s: the destination Put carries atomic=%v (%d options); documented: atomic=%v", input, p.atomic, p.nopts, wantAtomic)
+		case p.closed != 1:
+			report("%s: the written object was closed %d times; documented: once", input, p.closed)
+		case wantPaths && (!p.setExt || !p.setLocal || p.ext != src.ext || p.local != src.local):
+			report("%s: external/local path set to %q/%q (set=%v/%v); documented: the source's %q/%q", input, p.ext, p.local, p.setExt, p.setLocal, src.ext, src.local)
+		case !wantPaths && (p.setExt || p.setLocal):
+			report("%s: external/local path set to %q/%q although CopyWithExternalAndLocalPaths was not given", input, p.ext, p.local)
+		}
+	}
+	switch fn {
+	case "Exists":
+		for _, order := range orders {
+			for _, path := range []string{"a.txt", "b/c.txt", "b", "zz"} {
+				for _, fail := range []bool{false, true} {
+					tried++
+					b := vr4New("B", order...)
+					if fail {
+						b.errs["Stat "+path] = vr4Marker
+					}
+					got, err := Exists(ctx, b, path)
+					_, present := b.objects[path]
+					input := fmt.Sprintf("Exists(%s, %q)", b, path)
+					if fail {
+						if !errors.Is(err, vr4Marker) || got {
+							report("%s where Stat fails with a marker error (not a not-exist error) returns %v, %v; documented: false and that error", input, got, err)
+						}
+					} else if err != nil || got != present {
+						report("%s returns %v, %v; documented %v, nil", input, got, err, present)
+					}
+				}
+			}
+		}
+	case "IsEmpty":
+		for _, order := range orders {
+			for _, prefix := range prefixes {
+				for _, fail := range []string{"", "Walk ", "WalkEnd "} {
+					tried++
+					b := vr4New("B", order...)
+					if fail != "" {
+						b.errs[fail+prefix] = vr4Marker
+					}
+					got, err := IsEmpty(ctx, b, prefix)
+					want := len(b.under(prefix)) == 0
+					input := fmt.Sprintf("IsEmpty(%s, %q)", b, prefix)
+					switch {
+					case fail == "Walk " || (fail == "WalkEnd " && want):
+						if !errors.Is(err, vr4Marker) {
+							report("%s where the walk fails with a marker error returns %v, %v; documented: that error", input, got, err)
+						}
+					case err != nil || got != want:
+						report("%s returns %v, %v; documented %v, nil (objects under the prefix: %q)", input, got, err, want, b.under(prefix))
+					case b.visits > 1:
+						report("%s is handed %d objects by the walk; documented: the walk stops at the first object", input, b.visits)
+					}
+				}
+			}
+		}
+	case "AllPaths", "AllObjectInfos", "allObjectInfos", "sortObjectInfos", "pathToObjectInfo":
+		for _, order := range orders {
+			for _, prefix := range prefixes {
+				for _, fail := range []string{"", "Walk ", "WalkEnd "} {
+					tried++
+					b := vr4New("B", order...)
+					if fail != "" {
+						b.errs[fail+prefix] = vr4Marker
+					}
+					want := b.under(prefix)
+					paths, err := AllPaths(ctx, b, prefix)
+					infos, err2 := AllObjectInfos(ctx, b, prefix)
+					var infoPaths []string
+					for _, i := range infos {
+						infoPaths = append(infoPaths, i.Path())
+						if o := b.objects[i.Path()]; i.ExternalPath() != o.ext || i.LocalPath() != o.local {
+							report("AllObjectInfos(%s, %q): %s has external/local %q/%q instead of %q/%q", b, prefix, i.Path(), i.ExternalPath(), i.LocalPath(), o.ext, o.local)
+						}
+					}
+					input := fmt.Sprintf("AllPaths/AllObjectInfos(%s (walk order as listed), %q)", b, prefix)
+					if fail != "" {
+						if !errors.Is(err, vr4Marker) || !errors.Is(err2, vr4Marker) {
+							report("%s where the walk fails with a marker error return %v / %v; documented: that error", input, err, err2)
+						}
+					} else if err != nil || err2 != nil || fmt.Sprint(paths) != fmt.Sprint(want) || fmt.Sprint(infoPaths) != fmt.Sprint(want) {
+						report("%s return %q, %v / %q, %v; documented: the objects under the prefix sorted by path: %q", input, paths, err, infoPaths, err2, want)
+					}
+					if fail == "" {
+						m := pathToObjectInfo(infos)
+						if len(m) != len(want) {
+							report("pathToObjectInfo(infos of %s under %q) has %d keys; documented %d", b, prefix, len(m), len(want))
+						}
+						for k, i := range m {
+							if i.Path() != k {
+								report("pathToObjectInfo(infos of %s under %q): key %q maps to the object %q", b, prefix, k, i.Path())
+							}
+						}
+					}
+				}
+			}
+		}
+		tried++
+		shuffled := []ObjectInfo{vr4Info{"b", "3", ""}, vr4Info{"a/b", "2", ""}, vr4Info{"a-b", "1", ""}, vr4Info{"a", "0", ""}}
+		sortObjectInfos(shuffled)
+		if got := fmt.Sprint(shuffled[0].Path(), shuffled[1].Path(), shuffled[2].Path(), shuffled[3].Path()); got != fmt.Sprint("a", "a-b", "a/b", "b") {
+			report("sortObjectInfos([b a/b a-b a]) = %s; documented: ascending by path [a a-b a/b b]", got)
+		}
+	case "WalkReadObjects":
+		for _, order := range orders {
+			for _, prefix := range prefixes {
+				tried++
+				b := vr4New("B", order...)
+				got := map[string]string{}
+				var seen []string
+				err := WalkReadObjects(ctx, b, prefix, func(o ReadObject) error {
+					data, _ := io.ReadAll(o)
+					got[o.Path()] = string(data)
+					seen = append(seen, o.Path())
+					return nil
+				})
+				sort.Strings(seen)
+				want := b.under(prefix)
+				input := fmt.Sprintf("WalkReadObjects(%s, prefix %q)", b, prefix)
+				switch {
+				case err != nil:
+					report("%s fails: %v", input, err)
+				case fmt.Sprint(seen) != fmt.Sprint(want):
+					report("%s hands out %q (bucket calls: %q); documented: exactly the objects under the given prefix: %q", input, seen, b.log, want)
+				case b.opened != b.closed:
+					report("%s opened %d objects and closed %d", input, b.opened, b.closed)
+				}
+				for p, d := range got {
+					if d != b.objects[p].data {
+						report("%s hands out %q for %s; the object holds %q", input, d, p, b.objects[p].data)
+					}
+				}
+				if len(want) > 0 {
+					tried++
+					b2 := vr4New("B", order...)
+					calls := 0
+					err := WalkReadObjects(ctx, b2, prefix, func(ReadObject) error { calls++; return vr4Marker })
+					if !errors.Is(err, vr4Marker) || calls != 1 || b2.opened != b2.closed {
+						report("%s with a callback that fails on the first object returns %v after %d calls (opened %d, closed %d); documented: that error after one call, the object closed", input, err, calls, b2.opened, b2.closed)
+					}
+				}
+			}
+		}
+	case "ReadPath", "ForReadObject":
+		for _, path := range []string{"a.txt", "b/c.txt", "zz"} {
+			tried++
+			b := vr4New("B", "b/c.txt", "a.txt")
+			data, err := ReadPath(ctx, b, path)
+			var data2 []byte
+			err2 := ForReadObject(ctx, b, path, func(o ReadObject) error { data2, _ = io.ReadAll(o); return nil })
+			o, present := b.objects[path]
+			input := fmt.Sprintf("ReadPath/ForReadObject(%s, %q)", b, path)
+			switch {
+			case !present && (!IsNotExist(err) || !IsNotExist(err2)):
+				report("%s return %v / %v; documented: the bucket's not-exist error", input, err, err2)
+			case present && (err != nil || err2 != nil || string(data) != o.data || string(data2) != o.data):
+				report("%s return %q, %v / %q, %v; the object holds %q", input, data, err, data2, err2, o.data)
+			case b.opened != b.closed || fmt.Sprint(b.log) != fmt.Sprint([]string{"Get " + path, "Get " + path}):
+				report("%s: bucket calls %q, %d objects opened, %d closed; documented: one Get of exactly that path each, every object closed", input, b.log, b.opened, b.closed)
+			}
+		}
+	case "PutPath", "ForWriteObject", "CopyReader":
+		for _, path := range []string{"x.txt", "d/y.txt"} {
+			for _, data := range []string{"", "payload"} {
+				for _, atomic := range []bool{false, true} {
+					var opts []PutOption
+					if atomic {
+						opts = append(opts, PutWithAtomic())
+					}
+					tried += 3
+					to := vr4New("T")
+					err := PutPath(ctx, to, path, []byte(data), opts...)
+					input := fmt.Sprintf("PutPath(empty bucket, %q, %q, atomic=%v)", path, data, atomic)
+					if err != nil {
+						report("%s fails: %v", input, err)
+					} else {
+						checkPut(input, to, path, data, atomic, false, vr4Obj{})
+					}
+					to = vr4New("T")
+					err = ForWriteObject(ctx, to, path, func(w WriteObject) error { _, err := w.Write([]byte(data)); return err }, opts...)
+					input = fmt.Sprintf("ForWriteObject(empty bucket, %q, write %q, atomic=%v)", path, data, atomic)
+					if err != nil {
+						report("%s fails: %v", input, err)
+					} else {
+						checkPut(input, to, path, data, atomic, false, vr4Obj{})
+					}
+					if !atomic {
+						to = vr4New("T")
+						err = CopyReader(ctx, to, strings.NewReader(data), path)
+						input = fmt.Sprintf("CopyReader(empty bucket, reader of %q, %q)", data, path)
+						if err != nil {
+							report("%s fails: %v", input, err)
+						} else {
+							checkPut(input, to, path, data, false, false, vr4Obj{})
+						}
+					}
+					to = vr4New("T")
+					to.errs["WriteClose "+path] = vr4Marker
+					if err := PutPath(ctx, to, path, []byte(data), opts...); !errors.Is(err, vr4Marker) {
+						report("PutPath(bucket whose writer fails on Close, %q) returns %v; documented: that error", path, err)
+					}
+				}
+			}
+		}
+	case "Copy", "CopyPath", "CopyReadObject", "copyPath", "copyPaths", "copyReadObject", "CopyWithAtomic", "CopyWithExternalAndLocalPaths":
+		for _, atomic := range []bool{false, true} {
+			for _, paths := range []bool{false, true} {
+				var opts []CopyOption
+				if paths {
+					opts = append(opts, CopyWithExternalAndLocalPaths())
+				}
+				if atomic {
+					opts = append(opts, CopyWithAtomic())
+				}
+				desc := fmt.Sprintf("options{externalAndLocalPaths=%v, atomic=%v}", paths, atomic)
+				for _, fromPath := range []string{"a.txt", "b/c.txt"} {
+					for _, toPath := range []string{"a.txt", "q/r.txt"} {
+						tried += 2
+						from, to := vr4New("F", "b/c.txt", "a.txt"), vr4New("T")
+						src := from.objects[fromPath]
+						input := fmt.Sprintf("CopyPath(%s, %q, empty bucket, %q, %s)", from, fromPath, toPath, desc)
+						if err := CopyPath(ctx, from, fromPath, to, toPath, opts...); err != nil {
+							report("%s fails: %v (source bucket calls: %q)", input, err, from.log)
+						} else if fmt.Sprint(from.log) != fmt.Sprint([]string{"Get " + fromPath}) {
+							report("%s: source bucket calls %q; documented: one Get of exactly %q", input, from.log, fromPath)
+						} else {
+							checkPut(input, to, toPath, src.data, atomic, paths, src)
+						}
+						from, to = vr4New("F", "b/c.txt", "a.txt"), vr4New("T")
+						input = fmt.Sprintf("copyPath(%s, %q, empty bucket, %q, externalAndLocalPaths=%v, atomic=%v)", from, fromPath, toPath, paths, atomic)
+						if err := copyPath(ctx, from, fromPath, to, toPath, paths, atomic); err != nil {
+							report("%s fails: %v (source bucket calls: %q)", input, err, from.log)
+						} else if fmt.Sprint(from.log) != fmt.Sprint([]string{"Get " + fromPath}) || from.opened != from.closed {
+							report("%s: source bucket calls %q (opened %d, closed %d); documented: one Get of exactly %q, closed", input, from.log, from.opened, from.closed, fromPath)
+						} else {
+							checkPut(input, to, toPath, src.data, atomic, paths, src)
+						}
+					}
+					tried += 2
+					from, to := vr4New("F", "b/c.txt", "a.txt"), vr4New("T")
+					src := from.objects[fromPath]
+					obj, _ := from.Get(ctx, fromPath)
+					input := fmt.Sprintf("CopyReadObject(empty bucket, object %q with external path %q, %s)", fromPath, src.ext, desc)
+					if err := CopyReadObject(ctx, to, obj, opts...); err != nil {
+						report("%s fails: %v", input, err)
+					} else {
+						checkPut(input, to, fromPath, src.data, atomic, paths, src)
+					}
+					to = vr4New("T")
+					obj, _ = from.Get(ctx, fromPath)
+					input = fmt.Sprintf("copyReadObject(object %q, empty bucket, \"q/r.txt\", externalAndLocalPaths=%v, atomic=%v)", fromPath, paths, atomic)
+					if err := copyReadObject(ctx, obj, to, "q/r.txt", paths, atomic); err != nil {
+						report("%s fails: %v", input, err)
+					} else {
+						checkPut(input, to, "q/r.txt", src.data, atomic, paths, src)
+					}
+				}
+				for _, order := range orders {
+					tried++
+					from, to := vr4New("F", order...), vr4New("T")
+					n, err := Copy(ctx, from, to, opts...)
+					input := fmt.Sprintf("Copy(%s, empty bucket, %s)", from, desc)
+					got := map[string]*vr4PutRec{}
+					for _, p := range to.puts {
+						got[p.path] = p
+					}
+					if err != nil || n != len(order) || len(to.puts) != len(order) {
+						report("%s returns %d, %v with %d puts; documented: %d objects copied", input, n, err, len(to.puts), len(order))
+						continue
+					}
+					for _, p := range order {
+						src := from.objects[p]
+						rec, ok := got[p]
+						switch {
+						case !ok:
+							report("%s: no Put for %q", input, p)
+						case rec.data.String() != src.data || rec.closed != 1:
+							report("%s: %s received %q, closed %d times; the source holds %q", input, p, rec.data.String(), rec.closed, src.data)
+						case rec.atomic != atomic:
+							report("%s: the Put of %s carries atomic=%v", input, p, rec.atomic)
+						case paths != rec.setExt || paths != rec.setLocal || (paths && (rec.ext != src.ext || rec.local != src.local)):
+							report("%s: the Put of %s has external/local paths %q/%q (set=%v/%v); the source has %q/%q", input, p, rec.ext, rec.local, rec.setExt, rec.setLocal, src.ext, src.local)
+						}
+					}
+				}
+			}
+		}
+		tried += 3
+		if o := newCopyOptions(); o.atomic || o.externalAndLocalPaths {
+			report("newCopyOptions() has a flag set")
+		}
+		o := newCopyOptions()
+		CopyWithAtomic()(o)
+		if !o.atomic || o.externalAndLocalPaths {
+			report("CopyWithAtomic() applied to fresh options gives atomic=%v externalAndLocalPaths=%v; documented: only atomic", o.atomic, o.externalAndLocalPaths)
+		}
+		o = newCopyOptions()
+		CopyWithExternalAndLocalPaths()(o)
+		if o.atomic || !o.externalAndLocalPaths {
+			report("CopyWithExternalAndLocalPaths() applied to fresh options gives atomic=%v externalAndLocalPaths=%v; documented: only externalAndLocalPaths", o.atomic, o.externalAndLocalPaths)
+		}
+	case "PutWithAtomic", "PutWithSuggestedChunkSize", "newPutOptions", "NewPutOptions", "Atomic", "SuggestedChunkSize", "SuggestedDisableChunking":
+		type want struct {
+			atomic, disable bool
+			chunk           int
+		}
+		for _, c := range []struct {
+			desc string
+			opts []PutOption
+			w    want
+		}{
+			{"no options", nil, want{}},
+			{"PutWithAtomic()", []PutOption{PutWithAtomic()}, want{atomic: true}},
+			{"PutWithSuggestedChunkSize(7)", []PutOption{PutWithSuggestedChunkSize(7)}, want{chunk: 7}},
+			{"PutWithSuggestedChunkSize(0)", []PutOption{PutWithSuggestedChunkSize(0)}, want{disable: true}},
+			{"PutWithSuggestedChunkSize(-1)", []PutOption{PutWithSuggestedChunkSize(-1)}, want{}},
+			{"PutWithSuggestedChunkSize(7), PutWithAtomic()", []PutOption{PutWithSuggestedChunkSize(7), PutWithAtomic()}, want{atomic: true, chunk: 7}},
+			{"PutWithAtomic(), PutWithSuggestedChunkSize(9)", []PutOption{PutWithAtomic(), PutWithSuggestedChunkSize(9)}, want{atomic: true, chunk: 9}},
+		} {
+			tried++
+			got := NewPutOptions(c.opts)
+			if got.Atomic() != c.w.atomic || got.SuggestedChunkSize() != c.w.chunk || got.SuggestedDisableChunking() != c.w.disable {
+				report("a bucket given the put options [%s] decodes atomic=%v chunk size=%d disable chunking=%v; documented atomic=%v chunk size=%d disable chunking=%v", c.desc, got.Atomic(), got.SuggestedChunkSize(), got.SuggestedDisableChunking(), c.w.atomic, c.w.chunk, c.w.disable)
+			}
+		}
+	case "LimitWriteBucket", "newLimitedWriteBucket", "newLimitedWriteObjectCloser", "Put", "Write":
+		if fn == "Put" && strings.Contains(obl, "mapWriteBucketCloser") {
+			// a mapped write view hands the caller's put options to the wrapped bucket, with the mapped path
+			for _, c := range []struct {
+				desc   string
+				opts   []PutOption
+				atomic bool
+				chunk  int
+			}{
+				{"no options", nil, false, 0},
+				{"PutWithAtomic()", []PutOption{PutWithAtomic()}, true, 0},
+				{"PutWithSuggestedChunkSize(7)", []PutOption{PutWithSuggestedChunkSize(7)}, false, 7},
+				{"PutWithAtomic(), PutWithSuggestedChunkSize(7)", []PutOption{PutWithAtomic(), PutWithSuggestedChunkSize(7)}, true, 7},
+			} {
+				for _, prefix := range []string{"m", "m/a"} {
+					tried++
+					under := vr4New("U")
+					input := fmt.Sprintf("MapWriteBucket(recording bucket, MapOnPrefix(%q)).Put(\"d/x.txt\", %s)", prefix, c.desc)
+					w, err := MapWriteBucket(under, MapOnPrefix(prefix)).Put(ctx, "d/x.txt", c.opts...)
+					if err != nil {
+						report("%s fails: %v", input, err)
+						continue
+					}
+					_, _ = w.Write([]byte("payload"))
+					_ = w.Close()
+					if len(under.puts) != 1 || under.puts[0].path != prefix+"/d/x.txt" || under.puts[0].data.String() != "payload" {
+						report("%s: the wrapped bucket received %q; documented: one Put of %s/d/x.txt with the payload", input, under.log, prefix)
+					} else if rec := under.puts[0]; rec.atomic != c.atomic || rec.chunk != c.chunk || rec.nopts != len(c.opts) {
+						report("%s: the wrapped bucket's Put received %d options decoding to atomic=%v chunk size=%d; documented: the caller's options are forwarded (atomic=%v chunk size=%d)", input, rec.nopts, rec.atomic, rec.chunk, c.atomic, c.chunk)
+					}
+				}
+			}
+			return tried, true
+		}
+		if (fn == "Put" || fn == "Write") && !strings.Contains(obl, "limited") {
+			return 0, false
+		}
+		sizes := []int{0, 1, 3, 5}
+		type step struct {
+			obj  int
+			size int
+		}
+		var seqs [][]step
+		for _, a := range sizes {
+			seqs = append(seqs, []step{{0, a}})
+			for _, b := range sizes {
+				for _, ob := range []int{0, 1} {
+					seqs = append(seqs, []step{{0, a}, {ob, b}})
+					for _, c := range sizes {
+						seqs = append(seqs, []step{{0, a}, {ob, b}, {1 - ob, c}})
+					}
+				}
+			}
+		}
+		sort.SliceStable(seqs, func(i, j int) bool { return len(seqs[i]) < len(seqs[j]) })
+		reports := 0
+		for _, limit := range []int{-5, 0, 1, 4, 10} {
+			for _, atomic := range []bool{false, true} {
+				for _, seq := range seqs {
+					if reports >= 4 {
+						break
+					}
+					tried++
+					under := vr4New("U")
+					limited := LimitWriteBucket(under, limit)
+					var opts []PutOption
+					if atomic {
+						opts = append(opts, PutWithAtomic(), PutWithSuggestedChunkSize(7))
+					}
+					names := []string{"o0", "o1"}
+					var ws [2]WriteObjectCloser
+					var wantData [2]string
+					total := 0
+					max := limit
+					if max < 0 {
+						max = 0
+					}
+					var trace []string
+					ok := true
+					for _, st := range seq {
+						if ws[st.obj] == nil {
+							w, err := limited.Put(ctx, names[st.obj], opts...)
+							if err != nil {
+								report("LimitWriteBucket(recording bucket, %d).Put(%q) fails: %v", limit, names[st.obj], err)
+								ok = false
+								break
+							}
+							ws[st.obj] = w
+						}
+						chunk := strings.Repeat("x", st.size)
+						trace = append(trace, fmt.Sprintf("write %d bytes to %s", st.size, names[st.obj]))
+						n, err := ws[st.obj].Write([]byte(chunk))
+						accept := total+st.size <= max
+						if accept {
+							total += st.size
+							wantData[st.obj] += chunk
+						}
+						input := fmt.Sprintf("LimitWriteBucket(recording bucket, limit %d): %s", limit, strings.Join(trace, ", "))
+						switch {
+						case accept && (err != nil || n != st.size):
+							report("%s: the last write returns %d, %v although the total stays at %d <= %d", input, n, err, total, max)
+							ok = false
+						case !accept && (err == nil || !IsWriteLimitReached(err) || n != 0):
+							report("%s: the last write returns %d, %v; documented: 0 and a write-limit error (total %d + %d > limit %d; a negative limit counts as 0)", input, n, err, total, st.size, max)
+							ok = false
+						}
+						if ok {
+							for i, rec := range under.puts {
+								idx := 0
+								if rec.path == "o1" {
+									idx = 1
+								}
+								_ = i
+								if rec.data.String() != wantData[idx] {
+									report("%s: the underlying bucket holds %d bytes for %s; documented %d (a refused write must not reach the underlying bucket)", input, rec.data.Len(), rec.path, len(wantData[idx]))
+									ok = false
+								}
+							}
+						}
+						if !ok {
+							reports++
+							break
+						}
+					}
+					if ok {
+						for _, rec := range under.puts {
+							if rec.atomic != atomic || (atomic && rec.chunk != 7) || rec.nopts != len(opts) {
+								report("LimitWriteBucket(recording bucket, limit %d).Put(%q, options atomic=%v chunk=7 x%d): the underlying bucket received %d options, atomic=%v chunk=%d; documented: the options are forwarded", limit, rec.path, atomic, len(opts), rec.nopts, rec.atomic, rec.chunk)
+								reports++
+								break
+							}
+						}
+					}
+				}
+			}
+		}
+	case "getFullPath":
+		// mapped views: the root of the view is not an object (every spelling of it is refused before the wrapped bucket is
+		// asked), a hostile path is refused, any other path reaches the wrapped bucket as <prefix>/<normalized path>
+		for _, prefix := range []string{"m", "m/a"} {
+			for _, in := range []string{".", "", "./", "./.", "a/..", "a/../.", "x.txt", "./x.txt", "d//y.txt", "d/q/../y.txt", "..", "../x", "a/../../x", "/x", "d/../../../m/x"} {
+				tried++
+				clean := pathClean(in)
+				hostile := strings.HasPrefix(in, "/") || clean == ".." || strings.HasPrefix(clean, "../")
+				wantFull := ""
+				if !hostile && clean != "." {
+					wantFull = prefix + "/" + clean
+				}
+				for _, op := range []string{"Put", "Delete", "Get", "Stat"} {
+					under := vr4New("U", prefix+"/x.txt", prefix+"/d/y.txt")
+					var err error
+					switch op {
+					case "Put":
+						var w WriteObjectCloser
+						if w, err = MapWriteBucket(under, MapOnPrefix(prefix)).Put(ctx, in); err == nil {
+							_ = w.Close()
+						}
+					case "Delete":
+						err = MapWriteBucket(&vr4DeleteRec{under}, MapOnPrefix(prefix)).Delete(ctx, in)
+					case "Get":
+						var r ReadObjectCloser
+						if r, err = MapReadBucket(under, MapOnPrefix(prefix)).Get(ctx, in); err == nil {
+							_ = r.Close()
+						}
+					case "Stat":
+						_, err = MapReadBucket(under, MapOnPrefix(prefix)).Stat(ctx, in)
+					}
+					input := fmt.Sprintf("Map%sBucket(recording bucket, MapOnPrefix(%q)).%s(%q)", map[bool]string{true: "Write", false: "Read"}[op == "Put" || op == "Delete"], prefix, op, in)
+					switch {
+					case wantFull == "" && (err == nil || len(under.log) != 0):
+						report("%s returns %v and the wrapped bucket received %q; documented: %s is refused and the wrapped bucket is not asked", input, err, under.log, map[bool]string{true: "a path that leaves the view", false: "the root of the view (it is not an object)"}[hostile])
+					case wantFull != "" && fmt.Sprint(under.log) != fmt.Sprint([]string{op + " " + wantFull}):
+						report("%s (returned %v): the wrapped bucket received %q; documented: exactly %s %s", input, err, under.log, op, wantFull)
+					}
+				}
+			}
+		}
+	case "Close", "SetExternalAndLocalPathsSupported", "SetExternalPath", "SetLocalPath", "isPutOptions",
+		"NopReadBucketCloser", "NopWriteBucketCloser", "NopReadWriteBucketCloser", "MapReadBucketCloser", "MapWriteBucketCloser", "MapReadWriteBucketCloser", "FilterReadBucketCloser":
+		// closing a view closes the wrapped closer exactly once and returns its result; the Nop closers and the plain
+		// (non-closer) views close nothing and cannot fail; a mapped write view never accepts external / local paths
+		for _, closeErr := range []error{nil, vr4Marker} {
+			for _, c := range []struct {
+				desc       string
+				wrap       func(c *vr4CloserBucket) io.Closer
+				wantCloses int
+			}{
+				{"MapReadBucketCloser(closer, MapOnPrefix(\"a\"))", func(c *vr4CloserBucket) io.Closer { return MapReadBucketCloser(c, MapOnPrefix("a")) }, 1},
+				{"MapReadBucketCloser(closer) without mappers", func(c *vr4CloserBucket) io.Closer { return MapReadBucketCloser(c) }, 1},
+				{"MapWriteBucketCloser(closer, MapOnPrefix(\"a\"))", func(c *vr4CloserBucket) io.Closer { return MapWriteBucketCloser(c, MapOnPrefix("a")) }, 1},
+				{"MapWriteBucketCloser(closer) without mappers", func(c *vr4CloserBucket) io.Closer { return MapWriteBucketCloser(c) }, 1},
+				{"MapReadWriteBucketCloser(closer, MapOnPrefix(\"a\"))", func(c *vr4CloserBucket) io.Closer { return MapReadWriteBucketCloser(c, MapOnPrefix("a")) }, 1},
+				{"MapReadWriteBucketCloser(closer) without mappers", func(c *vr4CloserBucket) io.Closer { return MapReadWriteBucketCloser(c) }, 1},
+				{"FilterReadBucketCloser(closer, MatchPathExt(\".txt\"))", func(c *vr4CloserBucket) io.Closer { return FilterReadBucketCloser(c, MatchPathExt(".txt")) }, 1},
+				{"FilterReadBucketCloser(closer) without matchers", func(c *vr4CloserBucket) io.Closer { return FilterReadBucketCloser(c) }, 1},
+				{"NopReadBucketCloser(bucket)", func(c *vr4CloserBucket) io.Closer { return NopReadBucketCloser(c) }, 0},
+				{"NopWriteBucketCloser(bucket)", func(c *vr4CloserBucket) io.Closer { return NopWriteBucketCloser(c) }, 0},
+				{"NopReadWriteBucketCloser(bucket)", func(c *vr4CloserBucket) io.Closer { return NopReadWriteBucketCloser(c) }, 0},
+				{"the plain view MapReadBucket(bucket, MapOnPrefix(\"a\"))", func(c *vr4CloserBucket) io.Closer { return MapReadBucket(c, MapOnPrefix("a")).(*mapReadBucketCloser) }, 0},
+				{"the plain view MapWriteBucket(bucket, MapOnPrefix(\"a\"))", func(c *vr4CloserBucket) io.Closer { return MapWriteBucket(c, MapOnPrefix("a")).(*mapWriteBucketCloser) }, 0},
+				{"the plain view MapReadWriteBucket(bucket, MapOnPrefix(\"a\"))", func(c *vr4CloserBucket) io.Closer {
+					return MapReadWriteBucket(c, MapOnPrefix("a")).(compositeReadWriteBucketCloser)
+				}, 0},
+				{"the plain view FilterReadBucket(bucket, MatchPathExt(\".txt\"))", func(c *vr4CloserBucket) io.Closer {
+					return FilterReadBucket(c, MatchPathExt(".txt")).(*filterReadBucketCloser)
+				}, 0},
+			} {
+				tried++
+				under := &vr4CloserBucket{vr4Bucket: vr4New("U", "a/b.txt", "c.txt"), closeErr: closeErr}
+				err := c.wrap(under).Close()
+				var wantErr error
+				if c.wantCloses > 0 {
+					wantErr = closeErr
+				}
+				if under.closes != c.wantCloses || !errors.Is(err, wantErr) || (wantErr == nil && err != nil) {
+					report("%s.Close() where the wrapped Close returns %v: returns %v and closed the wrapped bucket %d times; documented: returns %v, %d closes", c.desc, closeErr, err, under.closes, wantErr, c.wantCloses)
+				}
+			}
+		}
+		for _, supported := range []bool{false, true} {
+			tried++
+			under := &vr4CloserBucket{vr4Bucket: vr4New("U"), supported: supported}
+			view := MapWriteBucket(under, MapOnPrefix("m"))
+			input := fmt.Sprintf("MapWriteBucket(bucket with SetExternalAndLocalPathsSupported()=%v, MapOnPrefix(\"m\"))", supported)
+			if view.SetExternalAndLocalPathsSupported() {
+				report("%s.SetExternalAndLocalPathsSupported() is true; documented: a mapped write view never accepts external/local paths", input)
+			}
+			w, err := view.Put(ctx, "x.txt", PutWithAtomic())
+			if err != nil {
+				report("%s.Put(\"x.txt\") fails: %v", input, err)
+				continue
+			}
+			if err := w.SetExternalPath("/e"); err != ErrSetExternalPathUnsupported {
+				report("%s.Put(\"x.txt\").SetExternalPath returns %v; documented ErrSetExternalPathUnsupported", input, err)
+			}
+			if err := w.SetLocalPath("/l"); err != ErrSetLocalPathUnsupported {
+				report("%s.Put(\"x.txt\").SetLocalPath returns %v; documented ErrSetLocalPathUnsupported", input, err)
+			}
+			_, _ = w.Write([]byte("payload"))
+			if err := w.Close(); err != nil {
+				report("%s.Put(\"x.txt\"): Close fails: %v", input, err)
+			}
+			if len(under.puts) != 1 || under.puts[0].path != "m/x.txt" || under.puts[0].data.String() != "payload" || !under.puts[0].atomic || under.puts[0].setExt || under.puts[0].setLocal || under.puts[0].closed != 1 {
+				report("%s.Put(\"x.txt\", atomic), Write(\"payload\"), Close: the wrapped bucket saw %d puts (first: %+v); documented: one atomic Put of m/x.txt with the payload, no external/local path, closed once", input, len(under.puts), under.log)
+			}
+		}
+	default:
+		return 0, false
+	}
+	return tried, true
+}
+
+// vr4DeleteRec records Delete calls in the log of the wrapped recording bucket.
+type vr4DeleteRec struct{ *vr4Bucket }
+
+func (d *vr4DeleteRec) Delete(_ context.Context, p string) error {
+	d.log = append(d.log, "Delete "+p)
+	return nil
+}
+
+func pathClean(p string) string { return path.Clean(p) }
+
+type vr4CloserBucket struct {
+	*vr4Bucket
+	closeErr  error
+	closes    int
+	supported bool
+}
+
+func (c *vr4CloserBucket) Close() error                            { c.closes++; return c.closeErr }
+func (c *vr4CloserBucket) SetExternalAndLocalPathsSupported() bool { return c.supported }
